@@ -397,6 +397,21 @@ func ToV(v Val, carrier string) sb.V {
 				return sb.V{K: "map:str:str", KV: kv, E: es}
 			}
 		}
+		if strings.HasPrefix(carrier, "map:int") || strings.HasPrefix(carrier, "map:uint8") || strings.HasPrefix(carrier, "map:int64") {
+			// a Go map with integer keys when every key spells a small integer
+			// (and, for map:K:str, every value is a string)
+			allInt, allStr := true, true
+			kv := make([]sb.V, len(v.Keys))
+			for i, k := range v.Keys {
+				n, err := strconv.Atoi(k)
+				allInt = allInt && err == nil && strconv.Itoa(n) == k && n >= 0 && n < 100
+				allStr = allStr && v.A[i].K == KStr
+				kv[i] = sb.V{K: "num", N: float64(n)}
+			}
+			if allInt && (allStr || strings.HasSuffix(carrier, ":any")) {
+				return sb.V{K: carrier, KV: kv, E: es}
+			}
+		}
 		return sb.V{K: "hash", E: es, KS: append([]string(nil), v.Keys...)}
 	}
 	return sb.V{K: "null"}
